@@ -224,7 +224,9 @@ func checkC11(cs *c11Case, o *pt.Obs) error {
 			if err := c.Call(&sut.Req{Op: "c11_stall"}, &b); err != nil {
 				continue
 			}
-			lastStall = b.Goroutines
+			if allParked(b.Goroutines) || len(lastStall) == 0 {
+				lastStall = b.Goroutines // keep the most recent sample that still shows blocked programme goroutines
+			}
 			var again *progResult
 			_ = c.Call(&sut.Req{Op: "c11_poll"}, &again)
 			if again != nil {
